@@ -2074,7 +2074,7 @@ class PseudoNetCDFFile(PseudoNetCDFSelfReg, object):
                     sliceoi = []
                     for si in sliceo:
                         if np.isscalar(si):
-                            sliceoi.append([si])
+                            sliceoi.append(slice(si, si + 1 or None))
                         elif isinstance(si, slice):
                             sliceoi.append(si)
                         else:
@@ -2084,6 +2084,11 @@ class PseudoNetCDFFile(PseudoNetCDFSelfReg, object):
                         varo[sliceoi], axis=concatax))
                 newvals = np.concatenate(point_arrays, axis=concatax)
             else:
+                # integers keep a length-1 axis; as slices they cannot be
+                # combined by numpy with an index list into fancy indexing
+                sliceo = tuple(
+                    slice(si, si + 1 or None) if np.isscalar(si) else si
+                    for si in sliceo)
                 newvals = varo[sliceo]
             try:
                 newvaro[...] = newvals
